@@ -30,6 +30,8 @@ import (
 const (
 	c35Unit       = "storms"
 	c35ModulePath = "github.com/honeycombio/refinery/"
+	// WAL index offset of the child's "cluster is up" marker
+	c35StartedMark = 1000000
 )
 
 // ---------------------------------------------------------------------------
@@ -254,7 +256,7 @@ func TestVerif_C35_Child(t *testing.T) {
 		t.Fatalf("c35 child: %v", err)
 	}
 	defer os.RemoveAll(dir)
-	res := c35RunStorm(spec, dir)
+	res := c35RunStorm(spec, dir, func() { wal.Done(c35StartedMark+spec.Case, "cluster-started") })
 	b, _ := json.Marshal(res)
 	if err := os.WriteFile(spec.ResultPath, b, 0o644); err != nil {
 		t.Fatalf("c35 child: %v", err)
@@ -359,7 +361,21 @@ func TestVerif_C35(t *testing.T) {
 		if g := os.Getenv("GORACE"); g != "" && !strings.Contains(g, "history_size") {
 			extra = append(extra, "GORACE="+g+" history_size=3")
 		}
-		out := verifkit.RunChild(outDir, "TestVerif_C35_Child", specPath, i, 4*time.Minute, extra...)
+		// A child that dies before its cluster is up (a listener port taken by
+		// another process between probing and binding makes Router.LnS panic in
+		// grpc.Serve(nil)) has not run the storm: start it again.
+		var out verifkit.ChildOutcome
+		for attempt := 0; attempt < 3; attempt++ {
+			out = verifkit.RunChild(outDir, "TestVerif_C35_Child", specPath, i, 4*time.Minute, extra...)
+			_, fin := out.Done[i]
+			_, started := out.Done[c35StartedMark+i]
+			if fin || started || out.TimedOut {
+				break
+			}
+			run.Count("storm_restarts_after_death_during_cluster_start", 1)
+			site, msg := verifkit.CrashSite(out.Output)
+			t.Logf("c35: storm %d attempt %d: child died during cluster start (%s: %s)", i, attempt, site, msg)
+		}
 		// race logs written by this child
 		var files []string
 		for f := range c35RaceFiles(outDir) {
@@ -382,6 +398,9 @@ func TestVerif_C35(t *testing.T) {
 				tail = tail[len(tail)-6000:]
 			}
 			keep := filepath.Join(outDir, fmt.Sprintf("c35-storm-%d.child-output.log", i))
+			if rd := os.Getenv("VERIF_REPLAY_DIR"); rd != "" {
+				keep = filepath.Join(rd, fmt.Sprintf("C35-%s-seed%d-storm%d-child-output.log", c35Unit, run.Seed(), i))
+			}
 			_ = os.WriteFile(keep, []byte(out.Output), 0o644)
 			if out.TimedOut {
 				run.Inconclusive(fmt.Sprintf("storm %d: child hit its watchdog (output kept in %s)", i, keep))
